@@ -5,6 +5,7 @@ Edwards addition of two of them is the affine addition of the specification.
 import Dalek.Proofs.RisSpec
 import Dalek.Proofs.RisAlgebra
 import Dalek.Props.C03.Formulas
+import Dalek.Gen.AlgEdwardsSh
 
 namespace Dalek.Proofs.Ris
 
@@ -77,5 +78,22 @@ theorem edwardsAdd_erep {p q : RistrettoDalek.RPt} {Q R : Ed}
   unfold ERep toEPt RistrettoDalek.toRPt
   simp only [List.map_cons, List.map_nil, List.getD_cons_zero, List.getD_cons_succ, ZMod.natCast_zmod_val]
   exact hrep
+
+/-- the outputs of the translated Edwards addition run by the model are canonical -/
+theorem edwardsAdd_lt {p q : RistrettoDalek.RPt}
+    (hp : p.1 < P ∧ p.2.1 < P ∧ p.2.2.1 < P ∧ p.2.2.2 < P)
+    (hq : q.1 < P ∧ q.2.1 < P ∧ q.2.2.1 < P ∧ q.2.2.2 < P) :
+    (RistrettoDalek.edwardsAdd p q).1 < P ∧ (RistrettoDalek.edwardsAdd p q).2.1 < P ∧
+      (RistrettoDalek.edwardsAdd p q).2.2.1 < P ∧ (RistrettoDalek.edwardsAdd p q).2.2.2 < P := by
+  unfold RistrettoDalek.edwardsAdd
+  rw [run_nat_eq _ _ (by
+    simp only [List.mem_cons, List.not_mem_nil, or_false]
+    rintro n (h | h | h | h | h | h | h | h) <;> rw [h]
+    exacts [hp.1, hp.2.1, hp.2.2.1, hp.2.2.2, hq.1, hq.2.1, hq.2.2.1, hq.2.2.2])]
+  simp only [List.map_cons, List.map_nil]
+  rw [AlgEdwards.add_sh_ok]
+  unfold AlgEdwards.add_sh RistrettoDalek.toRPt
+  simp only [List.map_cons, List.map_nil, List.getD_cons_zero, List.getD_cons_succ]
+  exact ⟨ZMod.val_lt _, ZMod.val_lt _, ZMod.val_lt _, ZMod.val_lt _⟩
 
 end Dalek.Proofs.Ris
